@@ -57,6 +57,25 @@ func emitObs(id string, c rtgen.CaseT, ask []string, o rtgen.ObsT, st *hx.Stats)
 		if len(c.Prev) > 0 {
 			st.Count("request_not_first_on_router")
 		}
+		if c.Req.Cancelled {
+			st.Count("request_context_cancelled")
+		}
+		if len(c.Burst) > 0 {
+			st.Count("request_in_concurrent_burst")
+		}
+		if c.Overlap != nil {
+			st.Count("request_overlapping_" + c.Overlap.Kind)
+		}
+		for _, g := range c.Script {
+			rej := false
+			for _, k := range g.Cons {
+				rej = rej || k.Kind == "rejected"
+			}
+			if rej {
+				st.Count("script_with_rejected_where")
+				break
+			}
+		}
 		if len(c.Req.Path) >= 64 {
 			st.Count("path_ge_64_bytes")
 		}
@@ -82,7 +101,9 @@ func emitObs(id string, c rtgen.CaseT, ask []string, o rtgen.ObsT, st *hx.Stats)
 	return l.String() + hx.Comment(c)
 }
 
-func reg(m, p string, cons ...rtgen.ConsT) rtgen.RegT { return rtgen.RegT{Method: m, Path: p, Cons: cons} }
+func reg(m, p string, cons ...rtgen.ConsT) rtgen.RegT {
+	return rtgen.RegT{Method: m, Path: p, Cons: cons}
+}
 
 // fixed witnesses: the findings of DESIGN.md §7 for C01 and boundary cases, before any random case
 func fixed() []rtgen.CaseT {
@@ -125,6 +146,13 @@ func fixed() []rtgen.CaseT {
 		mk([]rtgen.RegT{reg(G, "/f/*")}, G, "/f/a/../b.txt", false), mk([]rtgen.RegT{reg(G, "/f/*")}, G, "/f/v1..2/", false),
 		mk([]rtgen.RegT{reg(G, "/w/:id", rtgen.ConsT{Name: "id", Kind: "where", Arg: `\d+`}, rtgen.ConsT{Name: "id", Kind: "where", Arg: `[a-z0-9]+`})}, G, "/w/abc", false),
 		mk([]rtgen.RegT{reg(G, "/w/:id", rtgen.ConsT{Name: "id", Kind: "where", Arg: `\d+`}, rtgen.ConsT{Name: "id", Kind: "where", Arg: `[a-z0-9]+`})}, "PUT", "/w/abc", false),
+		// a rejected Where (pattern does not compile, caller recovers) on a live route, then an accepted one
+		{Script: []rtgen.RegT{reg(G, "/users/:id", rtgen.ConsT{Name: "id", Kind: "rejected", Arg: "[0-9"}, rtgen.ConsT{Name: "id", Kind: "where", Arg: "[0-9]+"})}, Req: rtgen.ReqT{Method: G, Path: "/users/abc"}, Warm: true, WarmupAt: 0},
+		{Script: []rtgen.RegT{reg(G, "/users/:id", rtgen.ConsT{Name: "id", Kind: "rejected", Arg: "("}, rtgen.ConsT{Name: "id", Kind: "int"})}, Req: rtgen.ReqT{Method: G, Path: "/users/abc"}, Warm: true, WarmupAt: 0},
+		// nobody's route, request context already cancelled: still 405 + Allow / 404 / NoRoute
+		{Script: k01d, Req: rtgen.ReqT{Method: "POST", Path: "/users/7/files/a", Cancelled: true}},
+		{Script: k01d, Req: rtgen.ReqT{Method: G, Path: "/nothing", Cancelled: true}},
+		{Script: k01d, Req: rtgen.ReqT{Method: G, Path: "/nothing", Cancelled: true}, NoRoute: true},
 		mk(k01e, G, "/f/abc/x", false), mk(k01e, G, "/f/12/x/y", false), mk(k01e, "POST", "/g/a/b", false), mk(k01e, "POST", "/g/a/7", false), mk(k01e, "PUT", "/g/a/7", false),
 		mk([]rtgen.RegT{reg(G, "/s/*"), reg(G, "/s/:x")}, G, "/s/1", false), mk([]rtgen.RegT{reg(G, "/s/*")}, G, "/s", false),
 	}
@@ -171,9 +199,48 @@ func main() {
 					c := base
 					c.Req = q
 					c.Prev = reqs[:k:k]
-					fmt.Fprintln(w, emitObs(fmt.Sprintf("c01-%d-%d", a.Seed, i), c, ask, sess.Serve(q), st))
+					o := sess.Serve(q)
+					fmt.Fprintln(w, emitObs(fmt.Sprintf("c01-%d-%d", a.Seed, i), c, ask, o, st))
 					i++
 					j++
+					if o.Ran < 0 && !o.Panic && r.Chance(1, 3) {
+						// nobody's route: the same request once more, its context already cancelled
+						c.Prev = reqs[: k+1 : k+1]
+						c.Req.Cancelled = true
+						fmt.Fprintln(w, emitObs(fmt.Sprintf("c01-%d-%dx", a.Seed, i), c, ask, sess.Serve(c.Req), st))
+						i++
+						j++
+					}
+				}
+			}
+			if r.Chance(1, 2) && i < a.N {
+				// two requests in flight on one router, one of them held (and possibly failing) at a chosen point
+				kind := hx.Pick(r, []string{"handler", "end-slow", "end-panic", "end-panic"})
+				qa, qb := rtgen.GenReq(r, script), rtgen.GenReq(r, script)
+				ca := base
+				ca.Req = qa
+				ca.Overlap = &rtgen.OverlapT{Kind: kind, Role: "A", Other: qb}
+				cb := base
+				cb.Req = qb
+				cb.Overlap = &rtgen.OverlapT{Kind: kind, Role: "B", Other: qa}
+				oa, ob := rtgen.NewSession(ca, ask).ServeOverlap(kind, qa, qb)
+				fmt.Fprintln(w, emitObs(fmt.Sprintf("c01-%d-%doa", a.Seed, i), ca, ask, oa, st))
+				fmt.Fprintln(w, emitObs(fmt.Sprintf("c01-%d-%dob", a.Seed, i), cb, ask, ob, st))
+				i += 2
+			}
+			if r.Chance(1, 25) && i < a.N {
+				// a wide node under concurrent requests: every different answer to a request is a case
+				ws, reqs := rtgen.GenWide(r)
+				wb := rtgen.CaseT{NoRoute: nr, Script: ws}
+				wask := rtgen.AskNames(ws)
+				for k, obs := range rtgen.NewSession(wb, wask).ServeBurst(reqs, rtgen.BurstWorkers, rtgen.BurstRounds) {
+					for n, o := range obs {
+						c := wb
+						c.Req = reqs[k]
+						c.Burst = append(append([]rtgen.ReqT(nil), reqs[:k]...), reqs[k+1:]...)
+						fmt.Fprintln(w, emitObs(fmt.Sprintf("c01-%d-%db%d", a.Seed, i, n), c, wask, o, st))
+						i++
+					}
 				}
 			}
 		}
